@@ -63,6 +63,13 @@ fn gen_blind(thorough: bool, rng: &mut Rng) -> Result<(), String> {
                 let e = maxbits.entry(t.1).or_insert((0, 0));
                 e.0 = e.0.max(b);
                 e.1 += 1;
+                // the eight lowest bits of every draw (keys 900000 + position: (ones, draws))
+                let low = bn::BigNumber::from_dec(&t.2).ok().and_then(|x| x.to_bytes().ok()).and_then(|v| v.last().cloned()).unwrap_or(0);
+                for pos in 0..8usize {
+                    let e = maxbits.entry(900000 + pos).or_insert((0, 0));
+                    e.0 += ((low >> pos) & 1) as usize;
+                    e.1 += 1;
+                }
             }
         }
     };
@@ -287,6 +294,13 @@ fn gen_blind(thorough: bool, rng: &mut Rng) -> Result<(), String> {
     // population statistics: the prescribed top bit is reached
     for (size, (mx, cnt)) in maxbits.iter() {
         // max of n uniform draws below 2^size stays below 2^(size-d) with probability 2^-(n*d): alarm at 2^-40 and less
+        if *size >= 900000 {
+            // a bit that is the same in every draw: probability 2^-(n-1) for uniform draws
+            if *cnt >= 41 && (*mx == 0 || *mx == *cnt) {
+                global_oracles.push(json!({"name":"low_bits_vary","ok":false,"detail":format!("bit {} of all {} bn_rand draws is {} (probability 2^-{} for uniform draws)", size - 900000, cnt, if *mx == 0 { 0 } else { 1 }, cnt - 1)}));
+            }
+            continue;
+        }
         let (sz, what) = if *size < 100000 { (*size, "draws of bn_rand") } else { (*size - 100000, "blinders recovered from responses, prescribed size") };
         if *mx < sz && (sz - *mx) * *cnt >= 40 {
             global_oracles.push(json!({"name":"top_bit_reached","ok":false,"detail":format!("{} {}({}) never exceeded {} bits (probability 2^-{} for uniform draws)", cnt, what, sz, mx, (sz - *mx) * *cnt)}));
